@@ -122,8 +122,8 @@ def run(ck, facts, tier):
     sg = need_body(ck, facts, R, "chalk_engine::forest::Forest::simplify_goal")
     pg = need_body(ck, facts, R, "chalk_recursive::fulfill::Fulfill::push_goal")
     if sg and pg:
-        ms = enum_matches(sg.thir, "chalk_ir::GoalData")
-        mp = enum_matches(pg.thir, "chalk_ir::GoalData")
+        ms = enum_matches(facts.thir(sg.key), "chalk_ir::GoalData")
+        mp = enum_matches(facts.thir(pg.key), "chalk_ir::GoalData")
         if len(ms) != 1 or len(mp) != 1:
             ck.violation(R, "matches", sg.where(), "expected one GoalData match in each engine")
         else:
@@ -184,7 +184,7 @@ def run(ck, facts, tier):
             ck.violation(R, "RecursiveSolver::solve", s2.where(), "the caller's goal must reach the recursive context unchanged")
     ic = need_body(ck, facts, R, "chalk_integration::SolverChoice::into_solver")
     if ic:
-        ms = enum_matches(ic.thir, "chalk_integration::SolverChoice")
+        ms = enum_matches(facts.thir(ic.key), "chalk_integration::SolverChoice")
         ok = False
         if len(ms) == 1:
             a = ms[0]["arms"][select_arms(ms[0], V("SLG"))[0][0]]
